@@ -143,7 +143,7 @@ func checks() map[string]*Check {
 
 	// directed choreographies (W2)
 	app := func(id string, rs ...RunSpec) { m[id].Runs = append(m[id].Runs, rs...) }
-	app("C01", RunSpec{Scen: "w2.takeover", Quick: 24, Thorough: 600}, RunSpec{Scen: "w2.figure8", Quick: 16, Thorough: 400})
+	app("C01", RunSpec{Scen: "w2.takeover", Quick: 24, Thorough: 600}, RunSpec{Scen: "w2.figure8", Quick: 16, Thorough: 400}, RunSpec{Scen: "w2.staleinstall", Params: "snapshots=1,snapthr=6,pad=100", Quick: 24, Thorough: 600})
 	app("C02", RunSpec{Scen: "w2.votes", Quick: 32, Thorough: 800})
 	app("C03", RunSpec{Scen: "w2.deposed", Quick: 24, Thorough: 600}, RunSpec{Scen: "w2.bounce", Quick: 16, Thorough: 400}, RunSpec{Scen: "w2.takeover", Quick: 16, Thorough: 400})
 	app("C04", RunSpec{Scen: "w2.exacthalf", Quick: 16, Thorough: 400}, RunSpec{Scen: "w2.acklose", Quick: 24, Thorough: 600})
@@ -151,7 +151,7 @@ func checks() map[string]*Check {
 		RunSpec{Scen: "w2.freshread", Params: "opcap=4000,applyin=300", Quick: 16, Thorough: 400}, RunSpec{Scen: "w2.freshread", Params: "opcap=4000,applyin=300,voters=1", Quick: 8, Thorough: 200},
 		RunSpec{Scen: "w1", Params: "crash=1,reads=1,applyin=400,voters=3", Quick: 24, Thorough: 600}, RunSpec{Scen: "w1", Params: "crash=1,reads=1,voters=1", Quick: 8, Thorough: 200})
 	app("C06", RunSpec{Scen: "w2.takeover", Quick: 24, Thorough: 600})
-	app("C07", RunSpec{Scen: "w2.takeover", Quick: 24, Thorough: 600}, RunSpec{Scen: "w2.figure8", Quick: 24, Thorough: 600}, RunSpec{Scen: "w2.acklose", Quick: 16, Thorough: 400})
+	app("C07", RunSpec{Scen: "w2.staleinstall", Params: "snapshots=1,snapthr=6,pad=100", Quick: 16, Thorough: 400}, RunSpec{Scen: "w2.takeover", Quick: 24, Thorough: 600}, RunSpec{Scen: "w2.figure8", Quick: 24, Thorough: 600}, RunSpec{Scen: "w2.acklose", Quick: 16, Thorough: 400})
 	app("C08", RunSpec{Scen: "w2.votes", Quick: 24, Thorough: 600})
 
 	add(&Check{ID: "C19", Level: "exploration", Props: []string{"C19"},
